@@ -58,7 +58,9 @@ def _canon_reqs(raw):
     d = json.loads(raw)
     out = []
     for e in d:
-        out.append((e.get("Node"), e.get("Type"), e.get("Name"), ",".join(sorted(str(e.get("Req", "")).split(",")))))
+        # Export rewrites its own `node` argument from "/" to "" after the first sub-node it descends into, so the
+        # root's later entries carry Node "" or "/" depending on the walk order: same defect, same signature
+        out.append((e.get("Node") or "/", e.get("Type"), e.get("Name"), ",".join(sorted(str(e.get("Req", "")).split(",")))))
     return sorted(out)
 
 
@@ -80,7 +82,7 @@ def _canon_reqs_noidx(raw):
     out = []
     for e in d:
         req = sorted(ALTIDX.sub("_#", x) for x in str(e.get("Req", "")).split(","))
-        out.append((ALTIDX.sub("_#", str(e.get("Node"))), e.get("Type"), e.get("Name"), ",".join(req)))
+        out.append((ALTIDX.sub("_#", str(e.get("Node") or "/")), e.get("Type"), e.get("Name"), ",".join(req)))
     return sorted(out)
 
 
